@@ -13,10 +13,12 @@ mod schema;
 mod fam_eval;
 mod fam_ext;
 mod fam_ffi;
+mod fam_format;
 mod fam_partial;
 mod fam_pset;
 mod fam_slice;
 mod fam_store;
+mod fam_symcc;
 mod fam_syntax;
 mod fam_tpe;
 mod fam_validate;
@@ -73,7 +75,9 @@ fn family(name: &str) -> Option<(Runner, Driver)> {
         "batched" => (fam_batched::run, fam_batched::drive),
         "slice" => (fam_slice::run, fam_slice::drive),
         "syntax" => (fam_syntax::run, fam_syntax::drive),
+        "format" => (fam_format::run, fam_format::drive),
         "ffi" => (fam_ffi::run, fam_ffi::drive),
+        "symcc" => (fam_symcc::run, fam_symcc::drive),
         _ => return None,
     })
 }
